@@ -1493,7 +1493,6 @@ var _ = late(func() {
 	}
 })
 
-
 // isChildAtSearchResult: v is X.children[idx] with idx the position the given search call returned.
 func isChildAtSearchResult(v ssa.Value, search *ssa.Call) bool {
 	ld, ok := resolveVal(v).(*ssa.UnOp)
